@@ -2,6 +2,8 @@
 import collections
 import random
 
+from ..simutil import KRandom
+
 ID = 'C20'
 TECHNIQUE = 'runtime monitoring: seeded DEF texts (own renderer within the supported grammar) are parsed by the real parser and every attribute of the resulting DefFile, including the per-net wire and via listings computed by the real DefNet/DefWire code, is compared with the generator\'s record'
 LEVEL_TEXT = ('Random DEF files with all sections (header statements, units, die area, rows, tracks, via definitions, non-default rules, components, pins, pin properties, '
@@ -277,7 +279,7 @@ def gen_def(rng):
 def check_case(ctx, rng, idx):
     from kyupy import def_file
     text, rec, stats = gen_def(rng)
-    case = {'def': text}
+    case = {'def': text, 'rngkey': getattr(rng, 'key', None)}
     nontrivial = False
     with ctx.guard('def-raises', case):
         d = def_file.parse(text)
@@ -361,9 +363,8 @@ def check_case(ctx, rng, idx):
 
 def run(spec, ctx):
     for i in range(spec['n']):
-        check_case(ctx, random.Random(f'C20/{spec["seed"]}/{spec["shard"]}/{i}'), i)
+        check_case(ctx, KRandom(f'C20/{spec["seed"]}/{spec["shard"]}/{i}'), i)
 
 
 def replay(case, ctx):
-    for i in range(200):
-        check_case(ctx, random.Random(f'C20replay/{i}'), 9)
+    check_case(ctx, KRandom(case['rngkey']), 9)
